@@ -58,9 +58,16 @@ def body_for(t, a, b):
     if t in (11, 21, 22):
         ids = {11: [9, 8, 7, 2, 3, 4, 11, 12, 13, 1, 10], 21: [8, 9, 10, 11, 2, 1, 3], 22: [2, 1, 3, 0]}[t]
         k = a % (len(ids) + 1)
+        if b % 4 == 3:
+            # "array of one-octet values" (RFC 4880 5.2.3.7-9): ids without a name here are legal entries too
+            # (private/experimental 100..110, reserved 5/6, hash 12/14 of later specifications)
+            ids = ids[:2] + [100, 110, [5, 12, 4][t % 3]] + ids[2:]
+            k = max(k, 4)
+            return bytes(ids[i % len(ids)] for i in range(k)), 'preflist/unnamed-ids', True
         return bytes(ids[(b + i) % len(ids)] for i in range(k)), 'preflist/%d' % k, True
     if t == 12:
-        return bytes([0x80 | (a % 0x80), [1, 17, 19, 22][b % 4]]) + keypool.ref_public('ed25519-2').fingerprint, 'revocation-key/class%02x' % (0x80 | (a % 0x80)), (a % 0x80) in (0, 0x40)
+        alg = [1, 17, 19, 22, 100, 27][b % 6]
+        return bytes([0x80 | (a % 0x80), alg]) + keypool.ref_public('ed25519-2').fingerprint, 'revocation-key/class%02x%s' % (0x80 | (a % 0x80), '/unnamed-alg' if alg in (100, 27) else ''), (a % 0x80) in (0, 0x40)
     if t == 16:
         return None, 'issuer', True
     if t == 20:
@@ -72,7 +79,8 @@ def body_for(t, a, b):
         n = [1, 1, 2, 4, 0][b % 5]
         return bytes((a + 37 * i) & 0xFF for i in range(n)), 'flags/%doctets' % n, True
     if t == 29:
-        return bytes([[0, 1, 2, 3, 32][a % 5]]) + TEXTS[b % len(TEXTS)], 'reason/text%d' % (b % len(TEXTS)), True
+        code = [0, 1, 2, 3, 32, 100, 110, 4][a % 8]       # 100-110 private use; an unknown code reads as "no reason" (RFC 4880 5.2.3.23)
+        return bytes([code]) + TEXTS[b % len(TEXTS)], 'reason/text%d%s' % (b % len(TEXTS), '/unnamed-code' if code in (100, 110, 4) else ''), True
     if t == 31:
         return bytes([22, 8]) + bytes(32), 'target', False
     if t == 32:
@@ -80,6 +88,9 @@ def body_for(t, a, b):
         body = rsig.sign(sec, 0x19, 8, ('subkey', keypool.ref_public('ed25519-0'), sec.pub), keypool.std_hashed(1600000000, sec.pub.fingerprint), keypool.sp(16, sec.pub.keyid))
         return body, 'embedded', True
     if t in (33, 35):
+        if t == 35 and a % 3 == 2:
+            # a recipient key of a later version: version octet 6, 32-octet fingerprint (any body is well-formed under RFC 4880)
+            return b'\x06' + bytes(range(32)), 'fingerprint/v6', True
         return None if t == 33 else b'\x04' + keypool.ref_public('ed25519-2').fingerprint, 'fingerprint', True
     if t == 37:
         return bytes(32 * (a % 3)), 'attested/%d' % (a % 3), True
